@@ -27,7 +27,8 @@ REQUIRED = ["identities_checked", "assorter:plurality", "assorter:supermajority"
             "audit:ONEAUDIT", "elections_with_phantoms", "elections_with_pooled_cards", "elections_with_pooled_phantoms",
             "elections_with_unfindable_cards", "elections_with_missing_contest_mvr", "style_on", "style_off",
             "identities_rechecked_after_cvrs_revised_in_place", "population_checked",
-            "population_data_compared_with_per_card_values", "pool_dict_restricted_to_audited_contests"]
+            "population_data_compared_with_per_card_values", "pool_dict_restricted_to_audited_contests",
+            "null_mean_of_the_configured_test_checked"]
 ASSUMPTIONS = ["pool labelling coherent (a batch is pooled or not); add_pool_contests applied under style (documented "
                "precondition of ONEAudit)", "A_i is computed by reference assorters written from the definitions "
                "(cross-checked against the real assorters by C02 and C14)"]
@@ -117,6 +118,13 @@ def check_identities(es, sim, rec):
         for name, a in con.assertions.items():
             u = a.assorter.upper_bound
             v = a.margin
+            # "rejecting 'mean(B) <= 1/2' is rejecting 'the assertion is false'": the hypothesis the assertion's test
+            # is configured for is a mean of at most 1/2, whatever the social choice function and share
+            rec.count("null_mean_of_the_configured_test_checked")
+            if getattr(a.test, "t", None) != 0.5:
+                rec.violation("c03.identity", f"{sc['kind']}:{sc['audit_type']}:configured_test_does_not_test_mean_at_most_one_half",
+                              {"contest": cid, "assertion": name, "test.t": getattr(a.test, "t", None), "share": sc.get("share")})
+                return False
             Bs, As = [], []
             failed = False
             with np.errstate(all="ignore"):
